@@ -152,6 +152,19 @@ func (a *api4) Prepare(ctx context.Context, xid int, verdict func(int, bool) boo
 	}
 }
 
+// High: the calls built on SendAndRead (kind 1: DiscoverOffer, 2: Inform, 3: Request); they send to the client's server address
+func (a *api4) High(ctx context.Context, xid int, kind int) (*net.UDPAddr, func() error) {
+	x := dhcpv4.WithTransactionID(xid4(xid))
+	dest := a.c.RemoteAddr()
+	switch kind {
+	case 2:
+		return dest, func() error { _, err := a.c.Inform(ctx, net.IPv4(10, 0, 0, 77), x); return err }
+	case 3:
+		return dest, func() error { _, err := a.c.Request(ctx, x); return err }
+	}
+	return dest, func() error { _, err := a.c.DiscoverOffer(ctx, x); return err }
+}
+
 // Fire: Release of a lease whose ACK names server 10.77.0.<x>; the RELEASE carries the caller's transaction id
 func (a *api4) Fire(xid int) (*net.UDPAddr, func() error, bool) {
 	srv := net.IPv4(10, 77, 0, byte(1+xid%200)).To4()
@@ -329,6 +342,20 @@ func (a *api6) Prepare(ctx context.Context, xid int, verdict func(int, bool) boo
 }
 
 func (a *api6) Fire(xid int) (*net.UDPAddr, func() error, bool) { return nil, nil, false } // nclient6 has no such call
+
+// High: the calls built on SendAndRead (kind 1: Solicit, 2: RapidSolicit, 3: Solicit again)
+func (a *api6) High(ctx context.Context, xid int, kind int) (*net.UDPAddr, func() error) {
+	x := func(d dhcpv6.DHCPv6) {
+		if m, ok := d.(*dhcpv6.Message); ok {
+			m.TransactionID = xid6(xid)
+		}
+	}
+	dest := a.c.RemoteAddr()
+	if kind == 2 {
+		return dest, func() error { _, err := a.c.RapidSolicit(ctx, x); return err }
+	}
+	return dest, func() error { _, err := a.c.Solicit(ctx, x); return err }
+}
 
 func (a *api6) Close() error { return a.c.Close() }
 
